@@ -2,8 +2,9 @@
     reclaimed exactly once, for both outcomes of the cancellation race.
     Property theorems only; model in Model/OpState.v, proofs in Proofs/OpStateInv.v and
     Proofs/OpStateProofs.v. *)
+(* the small-step race model first: the names of Model/OpState.v imported next take precedence *)
+From A10 Require Import Model.OpRace Proofs.OpRaceProofs.
 From A10 Require Import Base.Word Base.Run Model.OpState Proofs.OpStateInv Proofs.OpStateProofs.
-From A10 Require Model.OpRace Proofs.OpRaceProofs.
 
 (** One step: a drop queues exactly [Cancel i] iff the operation is running and the queue has
     room, and then does not free; in every other status it queues nothing and frees now. *)
